@@ -6,6 +6,7 @@ CONSTANTS
   SELS = {1}
   HOLD = TRUE
   VALS = 3
+  COVER = FALSE
   LMIN = 1
   LMAX = 2
   STALL = 1
